@@ -163,7 +163,8 @@ CLAIMS = {
         "documented 2(n-age)/(n(n+1)). All 15 MA kinds plus Conv and VWMA are checked on the real code by metamorphic relations "
         "(x vs a*x+b, x,y vs x+y, hull incl. flat/scale-jump regimes, impulse responses) and against their weight-profile specs.",
    note=COMMON_NOTE + NUM_NOTE + "Every kind has its theorems (for the from-scratch specs the machines equal by C02-C04). PARTIAL only with respect to floats. "
-        "Known finding: Vidya leaves the hull (residue).",
+        "Vidya used to leave the hull on rounding residue (fixed: 99fe17e clamps |CMO|; C07_vidya_residue_cannot_leave_range holds for any content of its sums); "
+        "known finding left: its accuracy on flat windows (residue amplification).",
    ref="DESIGN.md §5 C15"),
 
  "C05": dict(cat="proof", tech="Lean 4 proofs about hand-written indicator models (composition of realised averages / extremum trackers, invariants lifted over candle lists) + per-step differential replay of every indicator value under the rounding allowance",
@@ -198,9 +199,10 @@ CLAIMS = {
         "contain the consumed candle in every reachable state; the returned SAR is never on the wrong side of the candle; Bollinger variance, "
         "StDev^2, TR >= 0; CLV in [-1,1]. Run: strict interval/order tests (slack C*eps*k*(hi-lo)) on every returned value of the bounded "
         "indicators incl. non-finite values, volatile->flat->volatile and zero-volume streams; dispersion methods >= 0; CLV/TR on valid candles.",
-   note=COMMON_NOTE + NUM_NOTE + "PARTIAL: floats are outside the theorems - exactly where this property bites: known findings MoneyFlowIndex, "
-        "ChandeMomentumOscillator leave their ranges (even +-inf) through rounding residue behind exact == 0 guards (RelativeStrengthIndex and the "
-        "TrendStrengthIndex NaN were fixed); documented ranges the formulas do not imply (ChaikinOscillator [-1,1], RelativeVigorIndex [-0.5,0.5], ADX +-DI [0,1]) "
+   note=COMMON_NOTE + NUM_NOTE + "PARTIAL: floats are outside most theorems - exactly where this property bites: MoneyFlowIndex, ChandeMomentumOscillator, "
+        "RelativeStrengthIndex, ADX left their ranges (even +-inf) through rounding residue behind exact == 0 guards; all repaired by fix: commits that clamp the "
+        "quotient (d1dca32, 91f0f9b, cc844cc, f2150a5; TrendStrengthIndex NaN 415d7fc), and for the clamped quotients the range is a theorem for ALL operands, residue "
+        "included (C12_clamped_quotient_range, C12_rsi_run_every_kind, C12_adx_run), while the clamp is proved a no-op on exact operands; documented ranges the formulas do not imply (ChaikinOscillator [-1,1], RelativeVigorIndex [-0.5,0.5], ADX +-DI [0,1]) "
         "are reported as doc-range findings (DESIGN 7.1). Whole-stream theorems from the constructors (no step panics, bound at every step): Aroon, RSI and Stochastic (every pair of non-overshooting kinds), "
         "MFI, CMO, CMF, TSI, Bollinger (variance >= 0), Keltner (every configuration), Donchian, LinearVolatility, MeanAbsDev; "
         "TrendStrengthIndex p^2 <= q (Cauchy-Schwarz), i.e. |value| <= 1 wherever defined. "
@@ -209,7 +211,8 @@ CLAIMS = {
  "C07": dict(cat="proof", tech="Lean 4 proofs of window locality and exponential forgetting (reduction of every history length to a bounded suffix) + late-position differential run on long streams",
    text="Theorems: after n inputs the window - hence every sliding-window spec - equals that of a fresh instance fed the last inputs "
         "only, for every earlier history; the exponential recurrences restart from their own value and forget the start like "
-        "(1-alpha)^k. The real code runs 12 000 (thorough 2 000 000) steps per instance through regime changes; at late positions "
+        "(1-alpha)^k; Vidya (after fix 99fe17e) cannot leave the range of its data whatever its running sums hold. The real code runs 70 000 (thorough 2 000 000) steps "
+        "per instance through regime changes incl. log-normal burst -> flat episodes; at late positions and at the steps where the window has just gone flat "
         "(dense around 255, 256, 65535, 65536) outputs are compared with a fresh exact model primed with the last window (allowance "
         "at k=t+n; selections, indices, signals exactly) and recursive methods by one exact model step from their serialized state.",
    note=COMMON_NOTE + NUM_NOTE + "PARTIAL: float drift over long streams is measured on the explored lengths, not proved; indicators are "
